@@ -52,6 +52,55 @@ theorem attributed_to_owner (st : St) (hi : Inv H st) (m : ULM) (hm : st.tcp = s
     find st.cache n = some k ∧ ∀ n', find st.cache n' = some k → n' = n :=
   ⟨(handshake_iff H hi hm k n).1 h, fun n' h' => owner_unique H hi n' n k h' ((handshake_iff H hi hm k n).1 h)⟩
 
+/-- attribution on EVERY return path of the TCP handshake: whatever identity hash `h` a connection presents and
+whatever key `k` its header is sealed under, with or without a fallback address —
+a request is attributed to the listed owner of `k` (and `h` is that key's hash), and a connection that did not
+authenticate (forged identity, garbage, unknown user) is attributed to nobody even when it is forwarded to the
+fallback address. Depends on the regenerated `fallbackFreshRequest`. -/
+theorem attribution_on_every_path (st : St) (hi : Inv H st) (m : ULM) (hm : st.tcp = some m ∨ st.udp = some m)
+    (fb : Bool) (h : Hash) (k : Key) :
+    (∀ n, handleStream H fb m h k = .request n → find st.cache n = some k ∧ H k = h) ∧
+    (∀ u, handleStream H fb m h k = .fallback u → u = "") ∧
+    (∀ n, find st.cache n = some k → handleStream H fb m (H k) k = .request n) := by
+  refine ⟨?_, ?_, ?_⟩
+  · intro n hr
+    unfold handleStream at hr
+    rw [live_eq H hi hm] at hr
+    cases hf : find st.lookup h with
+    | none => simp only [hf] at hr; split at hr <;> cases hr
+    | some e =>
+      obtain ⟨n', k'⟩ := e
+      simp only [hf] at hr
+      by_cases hk : k' = k ∧ H k = h
+      · simp only [hk, and_self, if_true, HsResult.request.injEq] at hr
+        subst hr
+        obtain ⟨rfl, hh⟩ := hk
+        exact ⟨(hi.sound _ _ _ hf).1, hh⟩
+      · simp only [hk, if_false] at hr
+        split at hr <;> cases hr
+  · intro u hr
+    unfold handleStream at hr
+    cases hf : find m h with
+    | none =>
+      simp only [hf] at hr
+      split at hr
+      · cases hr; rfl
+      · cases hr
+    | some e =>
+      obtain ⟨n', k'⟩ := e
+      simp only [hf] at hr
+      by_cases hk : k' = k ∧ H k = h
+      · simp [hk] at hr
+      · simp only [hk, if_false] at hr
+        split at hr
+        · simp only [fallbackFreshRequest, if_true, HsResult.fallback.injEq] at hr
+          exact hr.symm
+        · cases hr
+  · intro n hn
+    unfold handleStream
+    rw [live_eq H hi hm, hi.complete n k hn]
+    simp
+
 /-- `views_agree_seq`: after every finite history of add / update / delete / reload calls, external edits of
 the store file and debounce ticks, the in-memory views agree; the content the manager last synchronised
 with the file represents the cache unless a save is pending. -/
@@ -307,6 +356,7 @@ end SSV.C08
 #print axioms SSV.C08.register_establishes
 #print axioms SSV.C08.accept_iff_member
 #print axioms SSV.C08.attributed_to_owner
+#print axioms SSV.C08.attribution_on_every_path
 #print axioms SSV.C08.views_agree_seq
 #print axioms SSV.C08.file_tracks_cache_seq
 #print axioms SSV.C08.views_agree_conc
